@@ -32,6 +32,10 @@ def make_case(tier, seed, index):
     if index < len(LIB):
         return {"kind": "library", "name": LIB[index], "programs": bool((seed + index) % 2 == 0)}
     rng = gen.rng_for(seed, 6, index)
+    if index % simprop.CORPUS_EVERY == simprop.CORPUS_EVERY - 1:
+        from av import corpus
+
+        return corpus.make_case(rng, max_steps=30 if tier == "quick" else 60)
     pf = {"p_function": 0.65, "p_limits": 0.7, "p_yfactor": 0.6, "n_aux": (1, 4), "p_aggregation": 0.35, "p_targetable": 0.5, "value_classes": ["mild", "mild", "binding_limits", "binding_limits", "negative_functions", "mixed_scale", "rates_high"]}
     if tier == "thorough":
         pf["steps"] = (3, 50)
@@ -145,6 +149,24 @@ def run_case(case):
         chains, binding = check_parameters(R, view, parset, result.model.progset if pset is not None else None, instr)
         return {"records": R.records(), "stats": R.stats, "nontrivial": True, "sample": {"kind": "library", "name": name, "programs": pset is not None}}
 
+    if case["kind"] == "corpus":
+        from av import corpus
+
+        R.count("corpus_cases")
+        P, pset, instr = corpus.build(case)
+        parset = P.parsets[0]
+        try:
+            result = P.run_sim(parset, progset=pset, progset_instructions=instr)
+        except Exception as e:
+            if type(e).__name__ == "BadInitialization":
+                return {"records": R.records(), "stats": R.stats, "nontrivial": False, "excluded": "perturbed databook cannot be initialised"}
+            raise
+        view = ref.View(result)
+        if view.ill_posed_junctions():
+            R.count("illposed_runs")
+            return {"records": R.records(), "stats": R.stats, "nontrivial": False, "excluded": "ill-posed junction"}
+        chains, binding = check_parameters(R, view, parset, result.model.progset if pset is not None else None, instr)
+        return {"records": R.records(), "stats": R.stats, "nontrivial": bool(chains), "sample": dict(corpus.describe(case))}
     spec, ps, scen = case["spec"], case.get("progspec"), case.get("scenario")
     P = gen.build_project(spec)
     parset = P.parsets[0]
